@@ -42,6 +42,12 @@ func checkC07(c *Ctx) {
 	}
 	c.c07NoOp()
 	c.c07LoadStore()
+	// "with any TTL option": the expiry stored by Write is expireAt(ctx) = now + the effective TTL (context TTL if non-zero,
+	// else the configured one, 0 for UnlimitedTTL), shared with C10
+	c.borrow("C10", func() {
+		c.withAlias(map[string]string{"R06.6": "R10.1"}, func() { c.traitTTLRule("R06.6") })
+		c.c10ExpireAt()
+	}, func(o *coreObl) (string, bool) { return "R07.5", o.Rule == "R10.1" || o.Rule == "R10.3" })
 }
 
 // shardCount returns the length of the hashedBuckets array.
